@@ -22,6 +22,8 @@ VERUS_UNITS = {
                    props=['C03', 'C18', 'C04', 'C02']),
     'U-VAL-V': dict(module='contracts.verus.transcode_value', min_verified=3, timeout=600,
                     props=['C01', 'C06']),
+    'U-JSN-V': dict(module='contracts.verus.json_transcode', min_verified=1, timeout=600,
+                    props=['C03', 'C04']),
     'U-MAIN-V': dict(module='contracts.verus.cli_main', min_verified=7, timeout=600,
                      props=['C14', 'C03', 'C15', 'C13']),
     'U-CAP-V': dict(module='contracts.verus.input_capture', min_verified=18, timeout=600,
@@ -350,7 +352,7 @@ PROPERTIES = {
     'C03': dict(
         explanation='Document cutting is an ordered partition: msgpack::transcode hands the output rest[..n] with n the exact size of the first value (Verus, unbounded; '
                     'loop wiring: Verus U-MP-X proves on the verbatim msgpack::transcode, against the proved next_value_size, that the documents offered to the output are exactly mp_split(input): successive complete values, in order, no gap, no overlap, for every input length; Kani U-MP-T runs the same loop against the real rmp_serde constructors), consecutive, non-empty, covering the input; ChunkReader::take_to_offset / trim_to_offset '
-                    'return / keep exactly stream[start..o] / stream[o..delivered]. CLI: U-MAIN-V proves one translate call per input path, in order, on the one translator created before the loop. Verus (U-CHK-V) proves Chunker::next on the verbatim code for ALL event histories against an assumed libyaml '
+                    'return / keep exactly stream[start..o] / stream[o..delivered]. JSON: U-JSN-V proves on the verbatim json::transcode that a document is requested only after end() reported remaining input (zero-document inputs contribute nothing and do not fail) and that every value of the slice stream is offered once. CLI: U-MAIN-V proves one translate call per input path, in order, on the one translator created before the loop. Verus (U-CHK-V) proves Chunker::next on the verbatim code for ALL event histories against an assumed libyaml '
                     'event contract: the k-th Some(Ok(doc)) is exactly stream[start_k..end_k] of the k-th document of the event history (no gap byte, no neighbour byte, kind of its first content event), '
                     'emitted exactly once and in order, None only after every completed document was emitted; documents of a monotone history are ordered disjoint intervals (theorem); '
                     'yaml::transcode_reader (verbatim, same unit) offers every document the chunker emits to the output exactly once, in order, with exactly its bytes, and has offered all of them when it returns Ok.',
